@@ -192,7 +192,7 @@ def classify(data, out_text=""):
                     unwind_fail = True
                 else:
                     h.failures.append(c)
-                    if cat in UB_CATEGORIES or c.get("description", "").startswith("UB:") \
+                    if cat in UB_CATEGORIES or c.get("description", "").lstrip('"').startswith("UB:") \
                             or "invalid enum" in c.get("description", ""):
                         h.ub_failures.append(c)
                     elif cat == "arithmetic_overflow" or "attempt to" in c.get("description", ""):
